@@ -443,9 +443,9 @@ def run_edits(case, rt):
 edit_cases = st.fixed_dictionaries({"toks": st.one_of(container_tokens(2), container_tokens(1), value_tokens(1), value_tokens(0))})
 
 CHECKS = [
-    hc.Check("py_grammar", run_grammar, grammar_cases, quick_cases=3000, thorough_cases=100000),
+    hc.Check("py_grammar", run_grammar, grammar_cases, quick_cases=3000, thorough_cases=60000),
     hc.Check("py_ext", run_ext, ext_cases(), quick_cases=1600, thorough_cases=40000),
-    hc.Check("py_edits", run_edits, edit_cases, quick_cases=160, thorough_cases=4000),
+    hc.Check("py_edits", run_edits, edit_cases, quick_cases=160, thorough_cases=2400),
 ]
 
 if __name__ == "__main__":
